@@ -619,7 +619,7 @@ class Planner:
                 # pre-emption INSIDE source lines that touch shared state (instruction granularity)
                 # (cap 1: only the first visit of each point counts -- lazy initialisation runs once)
                 cap = sr.choice([1, 1, 3])
-                pol = {'kind': 'instr-shot', 'j': sr.randint(1, 25 if cap == 1 else 60), 'cap': cap, 'instr': True}
+                pol = {'kind': 'instr-shot', 'j': sr.randint(1, 10 if cap == 1 else 30), 'cap': cap, 'instr': True}
             elif x < 0.44:
                 pol = {'kind': 'bernoulli', 'p': sr.choice([1e-3, 1e-2, 1e-2, 1e-1])}
             elif x < 0.56:
